@@ -2,6 +2,7 @@ use crate::Fields;
 
 pub mod codec3;
 pub mod codec5;
+pub mod respq;
 pub mod topic;
 
 pub type Engine = fn(&Fields) -> Fields;
@@ -15,9 +16,37 @@ pub fn lookup(name: &str) -> Option<Engine> {
 
 /// engines that need their own runtime / line loop
 pub fn run_stream(
-    _name: &str,
-    _inp: &mut dyn std::io::BufRead,
-    _out: &mut dyn std::io::Write,
+    name: &str,
+    inp: &mut dyn std::io::BufRead,
+    out: &mut dyn std::io::Write,
 ) -> bool {
-    false
+    // async engines: all cases of the input run on one single-threaded ntex runtime
+    let lines: Vec<String> = match name {
+        "respq" => {
+            let mut text = String::new();
+            inp.read_to_string(&mut text).unwrap();
+            text.lines().map(str::to_string).collect()
+        }
+        _ => return false,
+    };
+    let name = name.to_string();
+    let results = std::rc::Rc::new(std::cell::RefCell::new(Vec::new()));
+    let r2 = results.clone();
+    crate::rt::block_on(async move {
+        for line in lines {
+            if line.starts_with('#') {
+                continue;
+            }
+            let case = crate::parse_line(&line);
+            let obs = match name.as_str() {
+                "respq" => respq::run_case(&case).await,
+                _ => unreachable!(),
+            };
+            r2.borrow_mut().push(crate::show_line(&obs));
+        }
+    });
+    for l in results.borrow().iter() {
+        writeln!(out, "{l}").unwrap();
+    }
+    true
 }
